@@ -37,6 +37,10 @@ pub struct Peer {
     /// its Announces carry a PATH_TRACE TLV with this many entries
     #[serde(default)]
     pub path_len: Option<usize>,
+    /// a two-port clock attached to port 0 *and* port 1 of the node under test (two parallel
+    /// links to the same grandmaster: one of the two ports goes passive)
+    #[serde(default)]
+    pub dual: bool,
 }
 
 #[derive(Clone, Debug, serde::Serialize, serde::Deserialize)]
@@ -82,9 +86,19 @@ pub fn run_case(rep: &mut Report, case: &Case, verbose: bool) {
         b.sdo = case.cfg.sdo;
         b.seed = case.seed.wrapping_add(100 + i as u64);
         b.clock = Some(perfect_clock(case.cfg.start));
+        let dual = p.dual && n_ports >= 2;
+        if dual {
+            b.n_ports = 2;
+            rep.ev("peer_on_two_ports_of_the_node");
+        }
         let Ok(built) = b.build() else { return };
         let idx = sim.add_node(built.node, (case.seed >> (8 + i)) % 1_000_000_000);
-        link_ends[p.on_port].push((idx, 0));
+        if dual {
+            link_ends[0].push((idx, 0));
+            link_ends[1].push((idx, 1));
+        } else {
+            link_ends[p.on_port].push((idx, 0));
+        }
         peer_idx.push(idx);
         if p.far {
             while sim.announce_steps.len() <= idx {
@@ -284,13 +298,24 @@ pub fn run_case(rep: &mut Report, case: &Case, verbose: bool) {
             sim.nodes[idx].muted = i != 0;
         }
         let p0 = &case.cfg.ports[0];
-        let eligible = !case.peers.is_empty() && case.peers[0].on_port == 0 && !case.peers[0].slave_only && case.peers[0].p1 < case.cfg.p1 && !p0.master_only && case.cfg.class >= 128 && p0.aml != 2;
+        // a master attached to two ports of the node is selected through one of them (the other
+        // goes passive): which one is the data set comparison's business (C05), here it is only
+        // required that one of them becomes slave
+        let dual0 = !case.peers.is_empty() && case.peers[0].dual && n_ports >= 2;
+        let eligible = !dual0 && !case.peers.is_empty() && case.peers[0].on_port == 0 && !case.peers[0].slave_only && case.peers[0].p1 < case.cfg.p1 && !p0.master_only && case.cfg.class >= 128 && p0.aml != 2;
         // a port that is still disabled by a peer-delay fault first needs one clean exchange, which
         // takes up to two (randomised) peer delay request intervals
         let tb = (2 * rt + 8) * max_i + if p0.p2p { 4 * interval_ns(p0.log_delay) } else { 0 };
         sim.run_until(sim.now + tb);
         bail_on_panic!();
         rep.ev("continuation_master");
+        if dual0 && !case.peers[0].slave_only && case.peers[0].p1 < case.cfg.p1 && case.cfg.class >= 128 && case.cfg.ports.iter().take(2).all(|p| !p.master_only && p.aml != 2) {
+            let states: Vec<PortState> = (0..2).map(|p| sim.nodes[a].node.port_state(p)).collect();
+            let faulty = (0..2).any(|p| states[p] == PortState::Faulty && case.cfg.ports[p].p2p);
+            if !faulty && !states.contains(&PortState::Slave) {
+                rep.violation("C12|better-master|no-slave-port|two-links", &format!("a better master announced steadily for {} s on both ports, which are {} and {}", tb / 1_000_000_000, state_name(states[0]), state_name(states[1])), replay.clone());
+            }
+        }
         if eligible {
             let st = sim.nodes[a].node.port_state(0);
             if st == PortState::Faulty && p0.p2p {
@@ -365,12 +390,16 @@ fn gen_case(rng: &mut StdRng) -> Case {
         start: 1_700_000_000 * SEC,
     };
     let so0 = rng.gen_bool(0.2);
-    let mut peers = vec![Peer { id: 0x10, p1: if so0 { 255 } else { [1u8, 1, 250][rng.gen_range(0..3)] }, slave_only: so0, on_port: 0, far: !so0 && rng.gen_bool(0.2), path_len: None }];
+    let mut peers = vec![Peer { id: 0x10, p1: if so0 { 255 } else { [1u8, 1, 250][rng.gen_range(0..3)] }, slave_only: so0, on_port: 0, far: !so0 && rng.gen_bool(0.2), path_len: None, dual: false }];
     if rng.gen_bool(0.6) {
-        peers.push(Peer { id: 0x11, p1: 250, slave_only: rng.gen_bool(0.5), on_port: 0, far: false, path_len: None });
+        peers.push(Peer { id: 0x11, p1: 250, slave_only: rng.gen_bool(0.5), on_port: 0, far: false, path_len: None, dual: false });
     }
     if n_ports > 1 {
-        peers.push(Peer { id: 0x12, p1: [1u8, 250][rng.gen_range(0..2)], slave_only: rng.gen_bool(0.3), on_port: 1, far: rng.gen_bool(0.1), path_len: None });
+        peers.push(Peer { id: 0x12, p1: [1u8, 250][rng.gen_range(0..2)], slave_only: rng.gen_bool(0.3), on_port: 1, far: rng.gen_bool(0.1), path_len: None, dual: false });
+    }
+    if n_ports > 1 && !so0 && rng.gen_bool(0.3) {
+        peers[0].dual = true;
+        peers[0].p1 = 1;
     }
     if cfg.path_trace && rng.gen_bool(0.5) {
         // the longest paths that still fit into an Announce, and just beyond
@@ -405,9 +434,9 @@ fn gen_p2p_fault_case(rng: &mut StdRng) -> Case {
     c.cfg.class = 248;
     let so = rng.gen_bool(0.7);
     c.peers = vec![
-        Peer { id: 0x10, p1: 1, slave_only: false, on_port: 0, far: false, path_len: None },
-        Peer { id: 0x11, p1: 255, slave_only: so, on_port: 0, far: false, path_len: None },
-        Peer { id: 0x12, p1: 255, slave_only: so, on_port: 0, far: false, path_len: None },
+        Peer { id: 0x10, p1: 1, slave_only: false, on_port: 0, far: false, path_len: None, dual: false },
+        Peer { id: 0x11, p1: 255, slave_only: so, on_port: 0, far: false, path_len: None, dual: false },
+        Peer { id: 0x12, p1: 255, slave_only: so, on_port: 0, far: false, path_len: None, dual: false },
     ];
     let w = |rng: &mut StdRng| FaultOp::Wait(rng.gen_range(8..16));
     c.script = vec![FaultOp::Mute(1, true), FaultOp::Mute(2, true), w(rng), FaultOp::Mute(0, true), w(rng), FaultOp::Mute(1, false), FaultOp::Mute(2, false), FaultOp::Wait(rng.gen_range(3..8))];
@@ -418,7 +447,7 @@ fn gen_p2p_fault_case(rng: &mut StdRng) -> Case {
 
 pub fn run(rep: &mut Report, tier: &str, seed: u64, shard: (u32, u32), replay: Option<&str>) {
     rep.rule = "a real instance (1-2 ports, E2E/P2P, master-only / slave-only, path trace, Kalman or recording filter, the daemon's TLV forwarder) in a simulated segment with 1-3 real peer instances (better / worse / slave-only) is first driven through a random fault script (peers muted and unmuted, links cut, transmit timestamps lost with 30 % / 100 %, slave-only toggled, peer-delay double responders) and then continued with (a) total silence or (b) one steadily announcing better master; bounded-progress and cadence checks in virtual time, with the host model's armed-timer set as witness; distinct = distinct event orders; evaluations = continuations".into();
-    rep.require(&["continuation_silence", "continuation_master", "cadence_checked", "start_state_Listening", "start_state_Master", "start_state_Slave", "start_state_Passive", "start_state_Faulty", "sim_events", "peer_announcing_a_long_path_trace"]);
+    rep.require(&["continuation_silence", "continuation_master", "cadence_checked", "start_state_Listening", "start_state_Master", "start_state_Slave", "start_state_Passive", "start_state_Faulty", "sim_events", "peer_announcing_a_long_path_trace", "peer_on_two_ports_of_the_node"]);
     if let Some(path) = replay {
         let v: serde_json::Value = serde_json::from_str(&std::fs::read_to_string(path).unwrap()).unwrap();
         match serde_json::from_value::<Case>(v["case"].clone()) {
